@@ -117,12 +117,17 @@ type VC struct {
 	gdecls     []string
 	gassumes   []string
 	axiomsUsed []string
+	dispatched map[string]bool
 }
 
 func newVC(w *World, fi *FuncInfo, fc *FuncContract) *VC {
 	vc := &VC{w: w, ss: newSorts(w), fi: fi, fc: fc, oblCount: map[string]int{}, entry: map[string]Value{},
 		ifaceFns: map[string]bool{}, globals: map[types.Object]Term{},
 		trustedCalls: map[string]bool{}, inlinedCalls: map[string]bool{}, havocCalls: map[string]bool{}, contractCalls: map[string]bool{}}
+	vc.ss.rangeFn = vc.rangeFacts
+	if fi != nil {
+		vc.ss.pkg = fi.Pkg.PkgPath
+	}
 	return vc
 }
 
